@@ -21,7 +21,7 @@ impl Rng {
   pub fn fork(&mut self) -> Rng { Rng(self.next()) }
 }
 
-pub fn hex(s: &str) -> String { hexb(s.as_bytes()) }
+pub fn hexs(s: &str) -> String { hexb(s.as_bytes()) }
 pub fn hexb(b: &[u8]) -> String {
   if b.is_empty() { return "-".to_string(); }
   let mut o = String::with_capacity(b.len() * 2);
